@@ -19,7 +19,7 @@ project_element = _ + (note | note_object | project_field) + _
 project_body = project_element[...]
 
 project = _c + (
-    pp.CaselessLiteral('project') + _
+    pp.CaselessKeyword('project') + _
     - name('name') + _
     + '{' + _
     - project_body('items') + _
